@@ -75,6 +75,11 @@ func path(v ssa.Value) string {
 		return path(v.X) + "." + fieldNameV(v)
 	case *ssa.UnOp:
 		if v.Op == token.MUL {
+			if a, ok := v.X.(*ssa.Alloc); ok {
+				if p := spilledParam(a); p != nil {
+					return p.Name()
+				}
+			}
 			return path(v.X)
 		}
 		return v.Op.String() + path(v.X)
@@ -129,6 +134,22 @@ func path(v ssa.Value) string {
 		return path(v.X) + "[:]"
 	}
 	return "?" + v.Name()
+}
+
+// spilledParam recognises go/ssa's spill of a captured parameter: `t0 = new T (p); *t0 = p` with no other store.
+func spilledParam(a *ssa.Alloc) *ssa.Parameter {
+	var prm *ssa.Parameter
+	n := 0
+	for _, r := range *a.Referrers() {
+		if s, ok := r.(*ssa.Store); ok && s.Addr == ssa.Value(a) {
+			n++
+			prm, _ = s.Val.(*ssa.Parameter)
+		}
+	}
+	if n == 1 {
+		return prm
+	}
+	return nil
 }
 
 func idxStr(v ssa.Value) string {
@@ -248,9 +269,35 @@ func nilness(e ssa.Value, b *ssa.BasicBlock, depth int) string {
 		return res
 	case *ssa.Call:
 		if f := x.Call.StaticCallee(); f != nil && depth < 3 {
+			if fp := f.Object(); fp != nil && fp.Pkg() != nil {
+				switch fp.Pkg().Path() + "." + f.Name() {
+				case "fmt.Errorf", "errors.New":
+					return "nonnil"
+				}
+			}
 			// constructor-like callee that never returns nil
 			if alwaysNonNil(f, depth+1) {
 				return "nonnil"
+			}
+		}
+	case *ssa.Extract:
+		// comma-ok map lookup of an error value under its ok edge: error tables hold non-nil errors
+		if lk, ok := x.Tuple.(*ssa.Lookup); ok && lk.CommaOk && x.Index == 0 {
+			for _, ec := range controlling(b) {
+				if ex, ok := ec.Cond.(*ssa.Extract); ok && ex.Tuple == x.Tuple && ex.Index == 1 && ec.Pol {
+					return "nonnil"
+				}
+			}
+		}
+	}
+	// guarded by a dominating `e != nil` on the same value
+	for _, ec := range controlling(b) {
+		if bo, ok := ec.Cond.(*ssa.BinOp); ok && isNilConst(bo.Y) && bo.X == e {
+			if (bo.Op == token.NEQ && ec.Pol) || (bo.Op == token.EQL && !ec.Pol) {
+				return "nonnil"
+			}
+			if (bo.Op == token.EQL && ec.Pol) || (bo.Op == token.NEQ && !ec.Pol) {
+				return "nil"
 			}
 		}
 	}
@@ -495,4 +542,47 @@ func sortedKeys[M ~map[string]V, V any](m M) []string {
 func isIntType(t types.Type) bool {
 	b, ok := t.Underlying().(*types.Basic)
 	return ok && b.Info()&types.IsInteger != 0
+}
+
+// reachAvoid: is there a CFG path from just after `from` to `to` on which no instruction satisfies kill?
+func reachAvoid(from, to ssa.Instruction, kill func(ssa.Instruction) bool) bool {
+	// scan the rest of from's block
+	scan := func(b *ssa.BasicBlock, start int) (hit bool, killed bool) {
+		for i := start; i < len(b.Instrs); i++ {
+			in := b.Instrs[i]
+			if in == to {
+				return true, false
+			}
+			if kill(in) {
+				return false, true
+			}
+		}
+		return false, false
+	}
+	hit, killed := scan(from.Block(), instrIndex(from)+1)
+	if hit {
+		return true
+	}
+	if killed {
+		return false
+	}
+	seen := map[*ssa.BasicBlock]bool{}
+	st := append([]*ssa.BasicBlock{}, from.Block().Succs...)
+	for len(st) > 0 {
+		b := st[len(st)-1]
+		st = st[:len(st)-1]
+		if seen[b] {
+			continue
+		}
+		seen[b] = true
+		hit, killed := scan(b, 0)
+		if hit {
+			return true
+		}
+		if killed {
+			continue
+		}
+		st = append(st, b.Succs...)
+	}
+	return false
 }
